@@ -554,6 +554,31 @@ package sizes
 //@   ghost nTag counts RegisterTag
 //@   ghost nRef counts RegisterReference
 //@   ghost nInc counts Progress.Inc
+//@   ghost nStart counts Progress.Start
+//@   ghost nDone counts Progress.Done
+// C18 "once a phase's final line is written no further line for that phase
+// appears": phases are properly bracketed — a phase is started only when none
+// is open, and Inc / Done happen only inside the one open phase (so Done is
+// never called twice for a phase, nor for a phase that was not started).
+// (The counters include the call the assertion is attached to.)
+//@   call 0 Progress.Start assert nStart == nDone + 1
+//@   call 0 Progress.Inc assert nStart == nDone + 1
+//@   call 0 Progress.Done assert nStart == nDone
+//@   call 1 Progress.Start assert nStart == nDone + 1
+//@   call 1 Progress.Inc assert nStart == nDone + 1
+//@   call 1 Progress.Done assert nStart == nDone
+//@   call 2 Progress.Start assert nStart == nDone + 1
+//@   call 2 Progress.Inc assert nStart == nDone + 1
+//@   call 2 Progress.Done assert nStart == nDone
+//@   call 3 Progress.Start assert nStart == nDone + 1
+//@   call 3 Progress.Inc assert nStart == nDone + 1
+//@   call 3 Progress.Done assert nStart == nDone
+//@   call 4 Progress.Start assert nStart == nDone + 1
+//@   call 4 Progress.Inc assert nStart == nDone + 1
+//@   call 4 Progress.Done assert nStart == nDone
+//@   call 5 Progress.Start assert nStart == nDone + 1
+//@   call 5 Progress.Inc assert nStart == nDone + 1
+//@   call 5 Progress.Done assert nStart == nDone
 //@   call 0 ObjectIter).Next as hdr
 //@   call 0 BatchObjectIter).Next as tr
 //@   call 1 BatchObjectIter).Next as co
